@@ -257,6 +257,9 @@ func run(c *rig.Ctx) {
 				if a == 0xff46 {
 					v = uint8(0xc0 + r.Intn(0x20)) // an OAM DMA transfer starts (and runs: see tick)
 				}
+				if a == 0xff45 && r.Chance(1, 2) {
+					v = r.Pick8([]uint8{0, 1, 143, 144, 152, 153, 154}) // LYC on the first and last lines
+				}
 				if !w.other(a, v) {
 					return
 				}
